@@ -302,6 +302,11 @@ func (w *pWorld) runPushLeg(s *pScn, l pLeg, useGit bool) ([]fDiff, map[string]a
 			track["refs/remotes/origin/"+strings.TrimPrefix(n, "refs/heads/")] = cname(v)
 		}
 	}
+	// the reference was deleted on the remote meanwhile: the client still tracks the value it
+	// last saw, which is what the lease expects
+	if s.Scn.Lease == "stale" && s.Rem["refs/heads/a"] == 0 {
+		track["refs/remotes/origin/a"] = cname(staleCommit(s))
+	}
 	// tracking refs may name commits the client does not have: only write those it has
 	have := map[string]bool{}
 	for _, c := range pRepoSpec(s.Scn.Dag, s.Loc).Commits {
